@@ -73,7 +73,13 @@ func raceBinary() (string, bool) {
 // checkScheduleRun: common oracles over one execution of a whole batch.
 func checkScheduleRun(prop string, agg *batchAgg, lines []batchLine, refs []soloRef, sch schedule, r *batchRunResult, resRoot string, desc string) {
 	n := len(lines)
-	if r.TimedOut {
+	if r.TimedOut || r.QuitAfterAllRunsEnded {
+		// a process that does not end is judged on its goroutine dump, never on the clock: if no goroutine can make progress
+		// any more the batch cannot terminate
+		if ev, dead := deadlocked(r.Stdout); dead {
+			agg.violate(prop, "batch_does_not_terminate", fmt.Sprintf("%s: every run has returned but the process does not end; no goroutine can make progress: %s", desc, trunc(ev, 700)))
+			return
+		}
 		agg.mu.Lock()
 		agg.inconcl = append(agg.inconcl, "wall-clock watchdog fired for "+desc+": "+goroutineFrame(r.Stdout))
 		agg.mu.Unlock()
